@@ -124,6 +124,61 @@ def jsonable(v):
     return v
 
 
+def nested_text_layout(text):
+    """per subset: the sequence of ('node', label) / ('rep', k, n) entries of the nested text of the data section"""
+    subsets = []
+    in_data = False
+    for line in text.split('\n'):
+        if line.startswith('<<<<<<'):
+            in_data = False
+            continue
+        if line.startswith('######'):
+            subsets.append([])
+            in_data = True
+            continue
+        if not in_data:
+            continue
+        t = line.lstrip(' .')
+        if t.startswith('# --- '):
+            w = t.split()
+            subsets[-1].append(['rep', int(w[2]), int(w[4])])
+        elif t.startswith('-> '):
+            subsets[-1].append(['node', t[3:9]])
+        else:
+            subsets[-1].append(['node', t[:6]])
+    return subsets
+
+
+def nested_json_layout(nested):
+    """the same sequence, derived from the nested JSON of the template data (list of subsets)"""
+    def emit(out, v):
+        out.append(['node', v['id']])
+        for a in v.get('attributes', []):
+            emit(out, a)
+
+    def walk(out, nodes):
+        for n in nodes:
+            if 'value' in n:
+                emit(out, n)
+                continue
+            out.append(['node', n['id']])
+            if 'factor' in n:
+                emit(out, n['factor'])
+            if 'members' in n:
+                if n['id'].startswith('1'):
+                    for ir, ms in enumerate(n['members']):
+                        out.append(['rep', ir + 1, len(n['members'])])
+                        walk(out, ms)
+                else:
+                    walk(out, n['members'])
+    res = []
+    for sub in nested:
+        out = []
+        walk(out, sub)
+        res.append(out)
+    return res
+
+
 def observe(b, encode=True, max_values=None):
     """Everything the C09 oracle and the correspondence need from the implementation for message bytes `b`.
     -> dict; 'decode' is 'ok' or an error tag (then nothing else is present)."""
@@ -218,6 +273,16 @@ def observe(b, encode=True, max_values=None):
                 if p['name'] == 'template_data':
                     out['nested'] = strip_description(p['value'])
     out['texts'] = {k: v for k, v in texts.items() if k != 'nested_json'}
+    if 'nested' in out and 'nested_text' in texts:
+        # nested text and nested JSON must lay the same nodes out in the same repetitions
+        a, m = nested_text_layout(texts['nested_text']), nested_json_layout(out['nested'])
+        stages['nested_text']['layout_equal'] = a == m
+        if a != m:
+            for k, (x, y) in enumerate(zip(a, m)):
+                if x != y:
+                    j = next((j for j, (p, q) in enumerate(zip(x, y)) if p != q), min(len(x), len(y)))
+                    stages['nested_text']['layout_diff'] = 'subset %d entry %d: text %s, JSON %s' % (k, j, x[j:j + 1], y[j:j + 1])
+                    break
     # -- encodings as the CLI makes them (JSON formats go through json.dumps / json.loads)
     if encode:
         enc = {}
